@@ -125,3 +125,30 @@ def py_valid(inst, schema, by_name, problems=None, path=""):
         else:
             problems.append(f"{path}{name}: list member of type {type(m).__name__} not permitted")
     return problems
+
+
+def blame_class(inst):
+    """The class of the deepest sub-aggregate of `inst` whose own to_etree -> from_etree round trip already fails
+    (so that a recorded finding about one class is recognised when that class is nested in another); the instance's
+    own class name when no proper part fails by itself."""
+    from ofxtools.models.base import Aggregate
+
+    def parts(x):
+        for v in x.__dict__.values():
+            if isinstance(v, Aggregate):
+                yield v
+        for m in list.__iter__(x):
+            if isinstance(m, Aggregate):
+                yield m
+
+    def fails(x):
+        r = quiet(lambda: Aggregate.from_etree(x.to_etree()))
+        return r[0] != "ok"
+
+    def go(x):
+        for p_ in parts(x):
+            b = go(p_)
+            if b is not None:
+                return b
+        return type(x).__name__ if fails(x) else None
+    return go(inst) or type(inst).__name__
